@@ -376,6 +376,25 @@ fn grammar_strings(fx: &Fixture) -> Vec<String> {
             v.push(format!("${}$v=19$m={},t={},p=1${}${}", a, m, t, e.encode([2u8; 16]), e.encode([6u8; 32])));
         }
     }
+    // multi-byte UTF-8: each field replaced by <k ASCII bytes><2-, 3- or 4-byte character><tail>
+    // for every k 0..=40, so that a character straddles every fixed byte offset a parser or an
+    // error message might slice at; and a multi-byte character inserted at every position
+    for ch in ['\u{e9}', '\u{20ac}', '\u{1f600}'] {
+        for k in 0..=40usize {
+            let pad: String = "argon2id-abcdefghijklmnopqrstuvwxyz0123456789"[..k.min(44)].to_string();
+            let odd = format!("{}{}xyz", pad, ch);
+            let sa = e.encode([2u8; 16]);
+            let ha = e.encode([6u8; 32]);
+            v.push(format!("${}$v=19$m=8,t=1,p=1${}${}", odd, sa, ha));
+            v.push(format!("$argon2id$v={}$m=8,t=1,p=1${}${}", odd, sa, ha));
+            v.push(format!("$argon2id$v=19$m={},t=1,p=1${}${}", odd, sa, ha));
+            v.push(format!("$argon2id$v=19$m=8,t={},p=1${}${}", odd, sa, ha));
+            v.push(format!("$argon2id$v=19$m=8,t=1,p={}${}${}", odd, sa, ha));
+            v.push(format!("$argon2id$v=19$m=8,t=1,p=1${}${}", odd, ha));
+            v.push(format!("$argon2id$v=19$m=8,t=1,p=1${}${}", sa, odd));
+            v.push(format!("$argon2id$v=19${}=8,t=1,p=1${}${}", odd, sa, ha));
+        }
+    }
     // structural mutants of a valid string
     let valid = fx.valid_pwstr.clone();
     let fields: Vec<&str> = valid.split('$').collect();
@@ -404,6 +423,11 @@ fn grammar_strings(fx: &Fixture) -> Vec<String> {
         let mut c = chars.clone();
         c.insert(i, ',');
         v.push(c.into_iter().collect());
+        for ch in ['\u{e9}', '\u{20ac}', '\u{1f600}'] {
+            let mut c = chars.clone();
+            c.insert(i, ch);
+            v.push(c.into_iter().collect());
+        }
         // every character duplicated, and replaced by each member of a small alphabet
         let mut c = chars.clone();
         c.insert(i, chars[i]);
@@ -537,6 +561,44 @@ pub fn worker(args: &[String]) -> i32 {
         }
         st.max("max_single_allocation_bytes", big as u64);
     }
+    // cost fields at the edges of their integer types: parsed, re-encoded and asked for
+    // needs_rehash only (the statement bounds the cost parameters of anything that hashes)
+    {
+        let e = base64::engine::general_purpose::STANDARD_NO_PAD;
+        let mut gi = 0usize;
+        for a in ["argon2id", "argon2i"] {
+            for m in [65536u64, 4194303, 4194304, 4194305, 1 << 31, (1 << 32) - 1, 1 << 32, (1 << 32) + 8] {
+                for t in [1u64, 3, (1 << 31) + 1, (1 << 32) - 1, 1 << 32] {
+                    gi += 1;
+                    idx += 1;
+                    if idx % nshards != shard {
+                        continue;
+                    }
+                    let s = format!("${}$v=19$m={},t={},p=1${}${}", a, m, t, e.encode([2u8; 16]), e.encode([6u8; 32]));
+                    note(&format!("pwhash cost-edge string {}", s));
+                    let r = guarded(AssertUnwindSafe(|| {
+                        let _ = crypto_pwhash_str_needs_rehash(&s, 3, 1 << 26);
+                        let _ = crypto_pwhash_str_needs_rehash(&s, t, (m as usize).wrapping_mul(1024));
+                        let p = PwHash::<Vec<u8>, Vec<u8>>::from_string(&s);
+                        let ok = p.is_ok();
+                        if let Ok(p) = p {
+                            let _ = p.to_string();
+                        }
+                        let _ = PwHash::from_string_with_defaults(&s).map(|p| p.to_string());
+                        ok
+                    }));
+                    st.eval(&("pwstr-cost-edge", gi), true, match &r {
+                        Err(_) => "panic",
+                        Ok(true) => "string-parsed",
+                        Ok(false) => "string-rejected",
+                    });
+                    if let Err(p) = &r {
+                        st.fail(Fail { check: "C04.total".into(), signature: "C04/pwhash_str/panic/cost-edge".into(), what: format!("password-hash string parsers panicked on '{}': {}", s, p), case: json!({"target": "pwhash-parse", "string": s}) });
+                    }
+                }
+            }
+        }
+    }
     note("done");
     st.flush();
     let fails: Vec<Value> = st.fails.iter().map(|f| json!({"signature": f.signature, "what": f.what, "case": f.case})).collect();
@@ -553,6 +615,17 @@ pub fn replay(case: &Value) -> Option<String> {
     if case["target"] == "pwhash" {
         return pw_call(case["string"].as_str()?, &fx.pw).err();
     }
+    if case["target"] == "pwhash-parse" {
+        let s = case["string"].as_str()?.to_string();
+        return guarded(AssertUnwindSafe(|| {
+            let _ = crypto_pwhash_str_needs_rehash(&s, 3, 1 << 26);
+            if let Ok(p) = PwHash::<Vec<u8>, Vec<u8>>::from_string(&s) {
+                let _ = p.to_string();
+            }
+            let _ = PwHash::from_string_with_defaults(&s).map(|p| p.to_string());
+        }))
+        .err();
+    }
     if case["target"] == "worker-died" {
         return Some("re-run bin/check C04: the worker process died on this case".into());
     }
@@ -568,8 +641,8 @@ pub fn run() -> i32 {
     let mut ctx = Ctx::new("C04", "exploration");
     let nshards = 16usize;
     let tier = ctx.tier;
-    ctx.rule = "product: every byte-string consumer (21 AEAD open forms incl. from_bytes parsers, 4 stream pull forms, 5 signature verification/opening forms, MAC verification classic+object, password-hash string consumers) x every input length 0..=2*overhead+64 (+256 thorough) x 5 content classes (zeros, 0xff, seeded random, authentic message cut to the length, authentic with one byte mutated); authentic stream messages carrying every tag byte 0..=255 at 3 message lengths through all pull forms; password-hash string grammar product (6 algorithm tokens x 5 versions x 8 memory x 6 time x 4 parallelism x 7 salt x 6 hash fields), every salt length and every hash length 0..=72 for both algorithms, plus structural mutants (every field deleted/duplicated/swapped, every character deleted / duplicated / replaced by each of 14 alphabet characters, every prefix, '$' and ',' inserted at every position); oracle: each call returns (Ok or Err) — no unwind, no abort/signal (16 child processes), largest single allocation <= 16 MiB + 8 x input length; non-trivial = every executed call".into();
-    ctx.assume("caller-owned output buffers are sized as the API documents for the given input length; cost parameters reaching verify are bounded (m <= 64 KiB, t <= 3) as the property states");
+    ctx.rule = "product: every byte-string consumer (21 AEAD open forms incl. from_bytes parsers, 4 stream pull forms, 5 signature verification/opening forms, MAC verification classic+object, password-hash string consumers) x every input length 0..=2*overhead+64 (+256 thorough) x 5 content classes (zeros, 0xff, seeded random, authentic message cut to the length, authentic with one byte mutated); authentic stream messages carrying every tag byte 0..=255 at 3 message lengths through all pull forms; password-hash string grammar product (6 algorithm tokens x 5 versions x 8 memory x 6 time x 4 parallelism x 7 salt x 6 hash fields), every salt length and every hash length 0..=72 for both algorithms, every memory cost m=8..=2100 KiB (stride 37 to 4200), cost fields at the edges of their integer types (m, t around 2^22, 2^31, 2^32: parse / re-encode / needs_rehash only), plus structural mutants (every field deleted/duplicated/swapped, every character deleted / duplicated / replaced by each of 14 alphabet characters, every prefix, '$', ',' and a 2-, 3- and 4-byte UTF-8 character inserted at every position; every field replaced by k ASCII bytes + a multi-byte character for every k 0..=40); oracle: each call returns (Ok or Err) — no unwind, no abort/signal (16 child processes), largest single allocation <= 16 MiB + 8 x input length; non-trivial = every executed call".into();
+    ctx.assume("caller-owned output buffers are sized as the API documents for the given input length; cost parameters reaching verify are bounded (m <= 4200 KiB, t <= 3) as the property states");
     let exe = std::env::current_exe().unwrap();
     let seed = ctx.seed;
     let results: Vec<(usize, Result<Value, String>)> = (0..nshards)
